@@ -1,20 +1,37 @@
 """T-callmsg: the first-order decision logic of the message-call machinery of
 src/halmos/sevm.py -> coq/Gen/GenCallMsg.v  (used by Model/CallModel.v, property C09).
 
-Translated, each from one whitelisted syntactic shape (fail-closed):
-  SEVM.call      fund; Message(target, caller, origin, value, is_static, call_scheme);
-                 the guard of send_callvalue and the (from, to, amount) it passes on;
+Translated, each from one whitelisted syntactic shape (fail-closed; where a defect was repaired
+the shape before the repair is accepted too, so that the model follows a tree in which the
+repair is reverted and the theorems -- not only the translator -- report it):
+  SEVM.call      fund; the static-context test of a value-bearing CALL (absent = false);
+                 Message(target, caller, origin, value, is_static, call_scheme);
+                 the guard of send_callvalue and the (from, to, amount) it passes on, the balance
+                 requirement of the scheme that moves nothing (CALLCODE; absent = none);
                  the arguments of handle_insufficient_fund_case; which network-state
                  fields the callback restores under `if not subcall_success`;
                  subcall_success; the two copy_returndata_to_memory arguments
   SEVM.create    the static check, Message(...) fields, restored fields, the order
                  backup -> set-up -> transfer
+  copy or alias  for code / storage / transient_storage: whether the backups (orig_X = ...), the
+                 restores (new_ex.X = ...) of both callbacks and create_branch hand over a private
+                 copy (dict.copy() of the code map, deepcopy of the storage maps) or the object
+                 itself -> call_backup_copies_*, call_restore_copies_*, create_backup_copies_*,
+                 create_restore_copies_*, branch_copies_* (used by Model/CallHeapModel.v)
+  pinned         sub_ex shares ex.<field>; the callbacks re-install the parent's context / stack+memory
+                 / jumpis as deepcopies; create_branch copies cnts / st / context / jumpis; the worklist
+                 is LIFO and the main loop prefers the state just advanced; JUMPI with both sides
+                 followed: true side = create_branch copy pushed first, false side = the state
+                 itself pushed last; the insufficient-funds fork precedes the call dispatch
+  EXTCODESIZE / EXTCODECOPY   size of an existing / non-existing account; which accounts are read
+                 through Contract.slice and how many zero bytes the others yield
   handle_insufficient_fund_case   the zero shortcut and the insufficiency condition
   transfer_value the zero shortcut, the balance condition, debit-then-credit
   copy_returndata_to_memory       effective size
   Exec.returndata                 the visibility rule
   Exec.new_address                counter scheme
-  SEVM.run       the depth-limit guard; the static checks of SSTORE/TSTORE (sstore) and LOG
+  SEVM.run       the depth-limit guard; the static checks of SSTORE/TSTORE (sstore) and LOG;
+                 RETURNDATACOPY: whether the bound test is under the size guard, the bound, the copy guard
 """
 import ast
 
@@ -580,6 +597,56 @@ def translate(src_text):
                "size: int = ex.int_of(state.pop(), 'symbolic RETURNDATACOPY size')"]:
         raise TranslateError(f"run: RETURNDATACOPY operands {pre}")
 
+    # ------------------------------------------------------------------ EXTCODESIZE / EXTCODECOPY (what a frame sees of another account's code)
+    es_ifs = [n for n in ast.walk(run) if isinstance(n, ast.If) and U(n.test) == "opcode == OP_EXTCODESIZE"]
+    if len(es_ifs) != 1:
+        raise TranslateError("run: EXTCODESIZE arm")
+    es = _find(es_ifs[0].body, lambda s: isinstance(s, ast.If), "EXTCODESIZE alias test")
+    if U(es.test) != "account_alias is not None" or [U(s) for s in es.body] != ["codesize = BV(len(ex.code[account_alias]))"]:
+        raise TranslateError("run: EXTCODESIZE of an existing account must be len(ex.code[alias])")
+    if len(es.orelse) != 1 or not U(es.orelse[0]).startswith("codesize = ONE if account in [hevm_cheat_code.address, halmos_cheat_code.address] else ZERO"):
+        raise TranslateError(f"run: EXTCODESIZE of a non-existing account: {[U(s) for s in es.orelse]}")
+    ec_ifs = [n for n in ast.walk(run) if isinstance(n, ast.If) and U(n.test) == "opcode == OP_EXTCODECOPY"]
+    if len(ec_ifs) != 1:
+        raise TranslateError("run: EXTCODECOPY arm")
+    ec = ec_ifs[0].body
+    pre = [U(s) for s in ec if not isinstance(s, ast.If)]
+    if pre != ["account: BV = uint160(state.peek())", "account_alias = self.resolve_address_alias(ex, account, stack)", "state.pop()",
+               "loc: int = ex.int_of(state.pop(), 'symbolic EXTCODECOPY offset')", "offset: int = ex.int_of(state.pop(), 'symbolic EXTCODECOPY offset')",
+               "size: int = ex.int_of(state.pop(), 'symbolic EXTCODECOPY size')"]:
+        raise TranslateError(f"run: EXTCODECOPY operands {pre}")
+    eg = _find(ec, lambda s: isinstance(s, ast.If), "EXTCODECOPY size guard")
+    if U(eg.test) != "size" or eg.orelse:
+        raise TranslateError("run: EXTCODECOPY size guard")
+    emit("extcodecopy_guard", "(size : Z) ", "bool", "(negb (Z.eqb size 0))")
+    eb = [s for s in eg.body if not (isinstance(s, ast.If) and U(s.test) == "account_alias is None")]
+    if len(eb) != 3 or U(eb[2]) != "state.set_mslice(loc, codeslice)":
+        raise TranslateError(f"run: EXTCODECOPY body {[U(s) for s in eb]}")
+    acc, cs = U(eb[0].value), eb[1].value
+    senv = {"offset": ("offset", "Z"), "size": ("size", "Z")}
+
+    def _empty_len(call):
+        """length of ByteVec().slice(start, stop) = max(0, stop - start) zero bytes"""
+        if not (isinstance(call, ast.Call) and U(call.func) == "ByteVec().slice" and len(call.args) == 2 and not call.keywords):
+            raise TranslateError(f"run: EXTCODECOPY empty-account slice {U(call)}")
+        e = Ex(senv)
+        return f"(Z.max 0 (Z.sub {e.z(call.args[1])} {e.z(call.args[0])}))"
+
+    if U(eb[0].target) != "account_code" or U(eb[1].target) != "codeslice":
+        raise TranslateError("run: EXTCODECOPY account_code / codeslice")
+    if acc == "ex.code.get(account_alias)" and isinstance(cs, ast.IfExp):
+        # Contract.slice(start, size) for an existing account, else zero bytes
+        if U(cs.test) != "account_code is not None" or U(cs.body) != "account_code.slice(offset, size)":
+            raise TranslateError(f"run: EXTCODECOPY slice {U(cs)}")
+        emit("extcodecopy_use_code", "(has_account : bool) (codelen : Z) ", "bool", "has_account")
+        emit("extcodecopy_empty_len", "(offset size : Z) ", "Z", _empty_len(cs.orelse))
+    elif acc == "ex.code.get(account_alias) or ByteVec()" and U(cs) == "account_code.slice(offset, size)":
+        # a Contract with empty code is falsy (Contract.__len__): it reads as ByteVec().slice(offset, size) too
+        emit("extcodecopy_use_code", "(has_account : bool) (codelen : Z) ", "bool", "(andb has_account (negb (Z.eqb codelen 0)))")
+        emit("extcodecopy_empty_len", "(offset size : Z) ", "Z", "(Z.max 0 (Z.sub size offset))")
+    else:
+        raise TranslateError(f"run: EXTCODECOPY account_code = {acc}; codeslice = {U(cs)}")
+
     # ------------------------------------------------------------------ path forks: create_branch, JUMPI, the worklist
     br = find_function(tree, "create_branch", cls="SEVM")
     ret = _find(br.body, lambda s: isinstance(s, ast.Return), "create_branch return")
@@ -640,7 +707,9 @@ def selfcheck(info):
     """The decision functions have no importable counterpart (they are inline code); the
     cross-check is the L2 correspondence run of C09.  Here: sanity of what was emitted."""
     bad = []
-    for k in ("msg_target", "msg_caller", "msg_value", "msg_static", "call_fund", "sends_value", "insufficient", "balance_ok"):
+    for k in ("msg_target", "msg_caller", "msg_value", "msg_static", "call_fund", "sends_value", "insufficient", "balance_ok",
+              "call_static_value_check", "callvalue_checks_balance", "retcopy_guard", "retcopy_copy_guard", "extcodecopy_empty_len",
+              "call_restore_copies_storage", "create_restore_copies_storage", "branch_copies_storage", "call_backup_copies_storage"):
         if k not in info:
             bad.append(f"missing {k}")
     return bad
